@@ -15,7 +15,7 @@ func (world) Bubble(p string) bool  { return true }
 func (world) Level(p string) string { return "exploration" }
 func (world) Run(k *kernel.K)       { runGrandpa(k) }
 func (world) Rule(p string) string {
-	base := "one run = 4-7 GRANDPA voters (C18: 1-10), fewer than a third Byzantine (C18: the adversary may hold any number of keys), each honest voter a real lib/grandpa.Service over real dot/state on its own simulated disk, on a generated block tree with forks that keeps growing and that nodes import at different times. Every step is tape-chosen: deliver one in-flight message (any order), advance one node's round driver by one action of finalisation.go (initiateRound / prevote incl. primary / precommit behind the real supermajority gate / attemptToFinalize + commit), a Byzantine action (votes and commit messages composed from own valid signatures, replayed honest precommits, forged, duplicated, equivocating, mis-numbered, wrong round/set/stage, non-authority entries; selective sending), block production/import, partition/heal, crash+restart from disk. Messages travel as bytes from the real encoders through the real decoders; per message the network may drop or duplicate. "
+	base := "one run = 4-7 GRANDPA voters (C18: 1-10), fewer than a third Byzantine (C18: the adversary may hold any number of keys), each honest voter a real lib/grandpa.Service over real dot/state on its own simulated disk, on a generated block tree with forks that keeps growing and that nodes import at different times. Every step is tape-chosen: deliver one in-flight message (any order), advance one node's round driver by one action of finalisation.go (initiateRound / prevote incl. primary / precommit behind the real supermajority gate / attemptToFinalize + commit), a Byzantine action (votes and commit messages composed from own valid signatures, replayed honest precommits, forged, duplicated, equivocating, mis-numbered, wrong round/set/stage, non-authority entries; selective sending), block production/import, partition/heal, crash+restart from disk. Messages travel as bytes from the real encoders through the real decoders; per message the network may drop or duplicate. One third of the C21/C22 runs use the REAL round driver instead of the simulator's: Service.Start's vote tracker goroutine and finalisationHandler / finalisationEngine / votingRoundHandler goroutines with their real timers on the virtual clock, each node on a timer grid of its own so that one party is active at a time; the driver delivers messages, lets 10 ms - 4 s of virtual time pass, plays the Byzantine voters, restarts nodes; oracles there: safety after every step, every precommit a node's own driver sends has > 2/3 of the prevotes the node counts, every commit it announces carries > 2/3 valid precommits, uncountable votes leave the tallies unchanged. "
 	switch p {
 	case "C18":
 		return base + "C18 oracle: for every commit message delivered, an independent count of distinct authorities with a valid precommit on the target or a descendant plus authorities with two different valid precommits decides must-not/must finalise: finalised => count > 2n/3; clean messages at the boundary with count > 2n/3 => finalised. Non-trivial = at least one Byzantine commit or a finalisation."
@@ -28,7 +28,7 @@ func (world) Rule(p string) string {
 }
 func (world) Components(p string) ([]string, []string) {
 	return []string{"lib/grandpa Service: message decoding, vote validation, equivocation tracking, tallies, GHOST, pre-vote/pre-commit choice, attemptToFinalize/finalise, commit creation and verification, handleNetworkMessage", "dot/state BlockState + GrandpaState over simdisk", "lib/blocktree", "pkg/scale"},
-		[]string{"network (tape-driven transport carrying the real encodings)", "round timers: the finalisation.go goroutines are replaced by simulator events calling the same Service methods behind the same guards", "vote tracker goroutine (not started: votes for unknown blocks are lost like dropped messages)", "runtime (equivocation report stub)", "clock (synctest bubble)", "telemetry"}
+		[]string{"network (tape-driven transport carrying the real encodings)", "round timers: in 2/3 of the runs the finalisation.go goroutines are replaced by simulator events calling the same Service methods behind the same guards and the vote tracker goroutine is not started; in 1/3 of the C21/C22 runs both run for real (finalisation.go gets a hand-over hook inserted at check time, see worlds/grandpa/prebuild.sh)", "runtime (equivocation report stub)", "clock (synctest bubble)", "telemetry"}
 }
 func (world) Budget(p, tier string) (int, time.Duration) {
 	if tier == "thorough" {
